@@ -329,12 +329,259 @@ C05_Step(c, c2, g, ln) ==
        Len(oks) + Len(newP))
 C05_End(c, g) == OKr(g)
 
+
+-----------------------------------------------------------------------------
+(* shared helpers over the Deferred table *)
+Pending(c, d) == d \in 1..Len(c.D) /\ c.D[d].st = "pending"
+IsPubReq(e)   == e.op = "publish" /\ e.stim.qos.ty = "int" /\ e.stim.qos.v \in 1..2
+IsReq(e)      == (IsPubReq(e) \/ e.op \in {"subscribe", "unsubscribe"}) /\ e.mid >= 0
+InbAcks(inb, t) == {inb[i].p.id : i \in {j \in 1..Len(inb) : inb[j].p.t = t}}
+PubArgs(s) == [topic |-> s.topic, payload |-> s.payload, qos |-> s.qos, retain |-> s.retain]
+
+-----------------------------------------------------------------------------
+(* C10  Send window bounds in-flight publishes; queue is FIFO and strands no message *)
+\* ghost per address: acc = accepted publishes in call order, noack = handles first-transmitted and not yet PUBACK/PUBREC-ed
+C10_0 == [a \in Addrs |-> [acc |-> <<>>, noack |-> {}]]
+C10_HeadPos(c2, acc) ==
+  LET ps == SelectSeq([i \in 1..Len(acc) |-> i], LAMBDA i : ~acc[i].tx /\ ~acc[i].drop /\ (acc[i].qos = 0 \/ Pending(c2, acc[i].d)))
+  IN IF ps = <<>> THEN 0 ELSE ps[1]
+\* one PUBLISH write w on address a;  r = [x (ghost of a), err, info, hit]
+C10_Write(r, c, c2, a, w) ==
+  IF r.err # "" THEN r ELSE
+  LET x == r.x  p == w.p  h == C10_HeadPos(c2, x.acc)
+      mine == SelectSeq([i \in 1..Len(x.acc) |-> i], LAMBDA i : x.acc[i].qos > 0 /\ x.acc[i].mid = p.id /\ Pending(c2, x.acc[i].d))
+      first == IF p.qos = 0 THEN TRUE ELSE mine # <<>> /\ ~x.acc[mine[Len(mine)]].tx
+  IN IF p.qos > 0 /\ mine = <<>> THEN r                         \* not a request of this automaton's table: C13's subject
+     ELSE IF ~first THEN r                                      \* a repeat: C08's subject
+     ELSE IF h = 0 THEN [r EXCEPT !.err = "C10.sent_but_never_accepted", !.info = <<a, p.qos, p.id>>]
+     ELSE LET e == x.acc[h] IN
+          IF ~(e.qos = p.qos /\ e.topic = p.topic /\ e.payload = p.payload /\ e.retain = p.retain /\ (p.qos = 0 \/ e.mid = p.id))
+          THEN [r EXCEPT !.err = "C10.not_fifo", !.info = <<a, "expected", e.qos, e.mid, "written", p.qos, p.id>>]
+          ELSE IF p.dup # 0 THEN [r EXCEPT !.err = "C10.first_transmission_with_dup", !.info = <<a, p.id>>]
+          ELSE LET na == IF p.qos > 0 THEN {d \in x.noack \cup {e.d} : Pending(c2, d)} ELSE x.noack IN
+               IF p.qos > 0 /\ Cardinality(na) > c.A[a].window
+               THEN [r EXCEPT !.err = "C10.window_exceeded", !.info = <<a, Cardinality(na), c.A[a].window>>]
+               ELSE [r EXCEPT !.x = [x EXCEPT !.acc[h].tx = TRUE, !.noack = na], !.hit = @ + 1]
+RECURSIVE C10_Fold(_, _, _, _, _, _)
+C10_Fold(r, c, c2, a, ws, i) == IF i > Len(ws) THEN r
+                                ELSE C10_Fold(IF ws[i].p.t = "PUBLISH" /\ ws[i].a = a THEN C10_Write(r, c, c2, a, ws[i]) ELSE r, c, c2, a, ws, i + 1)
+C10_Step(c, c2, g, ln) ==
+  LET s == ln.stim IN
+  IF "a" \notin DOMAIN s THEN
+    \* a timer: only the writes matter (all addresses)
+    LET ws == Writes(c2, ln)
+        rs == [a \in Addrs |-> C10_Fold([x |-> g[a], err |-> "", info |-> <<>>, hit |-> 0], c, c2, a, ws, 1)]
+        bad == {a \in Addrs : rs[a].err # ""}
+    IN IF bad # {} THEN LET a == CHOOSE a \in bad : TRUE IN Bad2(g, rs[a].err, rs[a].info)
+       ELSE Hit([a \in Addrs |-> rs[a].x], 0)
+  ELSE
+  LET a == s.a  k == c.A[a]  rets == Fx(ln, "ret")
+      isPub == s.op = "publish" /\ rets # <<>>
+      valid == isPub /\ PublishCheck(PubArgs(s))[1] = "ok" /\ AllowedOp("publish", k.st, ln) /\ k.tp = "open" /\ k.st \in {"connecting", "connected"}
+      d == IF isPub THEN c2.D[rets[1].d] ELSE [st |-> "none"]
+      accepted == isPub /\ PublishCheck(PubArgs(s))[1] = "ok" /\ d.st \in {"pending", "ok"}
+      new == IF accepted THEN <<[d |-> rets[1].d, qos |-> s.qos.v, mid |-> rets[1].mid, topic |-> s.topic.v, payload |-> PayloadBytes(s.payload),
+                                 retain |-> s.retain, tx |-> FALSE, drop |-> FALSE]>> ELSE <<>>
+      inb == IF s.op = "recv" THEN Inbound(c, ln).acc ELSE <<>>
+      acked == InbAcks(inb, "PUBACK") \cup InbAcks(inb, "PUBREC")
+      x0 == g[a]
+      x1 == [x0 EXCEPT !.acc = @ \o new,
+                       !.noack = {h \in @ : ~(c.D[h].mid \in acked)}]
+      r == C10_Fold([x |-> x1, err |-> "", info |-> <<>>, hit |-> 0], c, c2, a, Writes(c2, ln), 1)
+      \* a clean session discards what was held back: at the loss of a clean connection, at an accepted clean connect()
+      discard == (s.op = "lost" /\ k.clean = 1) \/ (s.op = "connect" /\ c2.A[a].st = "connecting" /\ k.st = "idle" /\ s.clean = 1)
+      x2 == IF discard THEN [r.x EXCEPT !.acc = [i \in 1..Len(@) |-> IF @[i].tx THEN @[i] ELSE [@[i] EXCEPT !.drop = TRUE]]] ELSE r.x
+      waiting == C10_HeadPos(c2, x2.acc) # 0
+      outstanding == \E i \in 1..Len(x2.acc) : x2.acc[i].qos > 0 /\ x2.acc[i].tx /\ Pending(c2, x2.acc[i].d)
+      up == c2.A[a].st = "connected" /\ c2.A[a].tp = "open"
+  IN IF r.err # "" THEN Bad2(g, r.err, r.info)
+     ELSE FirstBad([g EXCEPT ![a] = x2],
+            << <<~valid \/ d.st # "fail", "C10.publish_refused", <<a, d.st, IF d.st = "fail" THEN d.exc ELSE "">> >>,
+               <<~(up /\ waiting) \/ outstanding, "C10.stranded", <<a, s.op>> >> >>,
+            r.hit + (IF up /\ waiting THEN 1 ELSE 0))
+C10_End(c, g) == OKr(g)
+
+-----------------------------------------------------------------------------
+(* C09  QoS 2 sender order: PUBREL only after PUBREC, no PUBLISH again after PUBREL *)
+\* ghost: QoS 2 requests [d, a, mid, phase, rec]
+C09_Write(r, c2, w) ==
+  IF r.err # "" THEN r ELSE
+  LET p == w.p
+      isP2 == p.t = "PUBLISH" /\ p.qos = 2
+      isRel == p.t = "PUBREL"
+      mine == SelectSeq([i \in 1..Len(r.q) |-> i], LAMBDA i : r.q[i].a = w.a /\ r.q[i].mid = p.id /\ Pending(c2, r.q[i].d))
+  IN IF ~(isP2 \/ isRel) \/ mine = <<>> THEN r
+     ELSE LET i == mine[Len(mine)]  e == r.q[i] IN
+          IF isP2 THEN (IF e.phase = "rel" THEN [r EXCEPT !.err = "C09.publish_after_pubrel", !.info = <<w.a, p.id>>]
+                        ELSE [r EXCEPT !.q[i].phase = "pub", !.hit = @ + 1])
+          ELSE (IF (e.phase = "pub" /\ e.rec) \/ e.phase = "rel" THEN [r EXCEPT !.q[i].phase = "rel", !.hit = @ + 1]
+                ELSE [r EXCEPT !.err = "C09.pubrel_without_pubrec", !.info = <<w.a, p.id, e.phase>>])
+RECURSIVE C09_Fold(_, _, _, _)
+C09_Fold(r, c2, ws, i) == IF i > Len(ws) THEN r ELSE C09_Fold(C09_Write(r, c2, ws[i]), c2, ws, i + 1)
+C09_Step(c, c2, g, ln) ==
+  LET s == ln.stim  rets == Fx(ln, "ret")
+      new == IF s.op = "publish" /\ rets # <<>> /\ s.qos.ty = "int" /\ s.qos.v = 2 /\ c2.D[rets[1].d].st = "pending"
+             THEN <<[d |-> rets[1].d, a |-> s.a, mid |-> rets[1].mid, phase |-> "new", rec |-> FALSE]>> ELSE <<>>
+      inb == IF s.op = "recv" THEN Inbound(c, ln).acc ELSE <<>>
+      recs == InbAcks(inb, "PUBREC")
+      q1 == [i \in 1..Len(g) |-> IF s.op = "recv" /\ g[i].a = s.a /\ g[i].mid \in recs /\ g[i].phase = "pub" /\ Pending(c, g[i].d)
+                                 THEN [g[i] EXCEPT !.rec = TRUE] ELSE g[i]] \o new
+      r == C09_Fold([q |-> q1, err |-> "", info |-> <<>>, hit |-> 0], c2, Writes(c2, ln), 1)
+  IN IF r.err # "" THEN Bad2(g, r.err, r.info) ELSE Hit(r.q, r.hit)
+C09_End(c, g) == OKr(g)
+
+-----------------------------------------------------------------------------
+(* C17  Packet identifiers are 1..65535 and never shared by two unfinished requests *)
+C17_Step(c, c2, g, ln) ==
+  LET rets == Fx(ln, "ret")  ws == Writes(c2, ln)
+      newReq == SelectSeq(rets, LAMBDA e : IsReq(c2.D[e.d]) /\ c2.D[e.d].st = "pending")
+      shared(e) == \E d \in 1..Len(c2.D) : d # e.d /\ IsReq(c2.D[d]) /\ c2.D[d].st = "pending" /\ c2.D[d].mid = e.mid
+      idw == SelectSeq(ws, LAMBDA w : (w.p.t = "PUBLISH" /\ w.p.qos > 0) \/ w.p.t \in {"PUBREL", "SUBSCRIBE", "UNSUBSCRIBE"})
+  IN FirstBad(g,
+       << <<\A i \in 1..Len(newReq) : newReq[i].mid \in 1..65535, "C17.msgid_out_of_range", <<IF newReq # <<>> THEN newReq[1].mid ELSE 0>> >>,
+          <<\A i \in 1..Len(newReq) : ~shared(newReq[i]), "C17.id_shared_by_unfinished_requests", <<IF newReq # <<>> THEN newReq[1].mid ELSE 0>> >>,
+          <<\A i \in 1..Len(idw) : idw[i].p.id \in 1..65535, "C17.wire_id_out_of_range", <<>> >> >>,
+       Len(newReq))
+C17_End(c, g) == OKr(g)
+
+
+-----------------------------------------------------------------------------
+(* which unfinished request a written packet belongs to (0 = none), and its class *)
+WClass(p) == CASE p.t = "PUBLISH" /\ p.qos > 0 -> "pub" [] p.t = "PUBREL" -> "rel" [] p.t = "SUBSCRIBE" -> "sub" [] p.t = "UNSUBSCRIBE" -> "unsub" [] OTHER -> ""
+FitsOp(e, cls, p) == CASE cls = "pub" -> IsPubReq(e) /\ e.stim.qos.v = p.qos
+                       [] cls = "rel" -> IsPubReq(e)     \* also QoS 1: a broker answering PUBREC to a QoS 1 PUBLISH is outside the quantifiers, not a stray write
+                       [] cls = "sub" -> e.op = "subscribe"
+                       [] cls = "unsub" -> e.op = "unsubscribe"
+                       [] OTHER -> FALSE
+ReqOf(c, c2, ln, a, p) ==
+  LET cls == WClass(p)
+      ds == {d \in 1..Len(c2.D) : c2.D[d].a = a /\ c2.D[d].mid = p.id /\ FitsOp(c2.D[d], cls, p) /\ (Pending(c, d) \/ (c2.D[d].n = ln.n /\ c2.D[d].mid >= 1))}
+  IN IF cls = "" \/ ds = {} THEN 0 ELSE CHOOSE d \in ds : \A e \in ds : e <= d
+\* the write effects of a line with their position in fx:  [i, a, g, p, bytes, d, cls]
+WritesAt(c, c2, ln) ==
+  LET pos == Where(ln.fx, LAMBDA e : e.k = "write") IN
+  [j \in 1..Len(pos) |->
+     LET e == ln.fx[pos[j]]  p == WPkt(c2, e) IN
+     [i |-> pos[j], a |-> e.c[1], g |-> e.c[2], p |-> p, bytes |-> e.bytes, cls |-> WClass(p),
+      d |-> IF WClass(p) = "" THEN 0 ELSE ReqOf(c, c2, ln, e.c[1], p)]]
+\* timers armed in this line: [tm, delay, fn, own = <<d, cls>> of the packet written right after the arm, or <<0, "">>]
+ArmsAt(c, c2, ln, ws) ==
+  LET pos == Where(ln.fx, LAMBDA e : e.k = "arm") IN
+  [j \in 1..Len(pos) |->
+     LET e == ln.fx[pos[j]]
+         nxt == SelectSeq(ws, LAMBDA w : w.i = pos[j] + 1)
+     IN [tm |-> e.tm, delay |-> e.delay, fn |-> e.label.fn, at |-> ln.t + e.delay, cg |-> 0,
+         own |-> IF nxt # <<>> /\ nxt[1].d # 0 THEN <<nxt[1].d, nxt[1].cls>> ELSE <<0, "">>]]
+CancelledIn(ln) == {e.tm : e \in SeqSet(Fx(ln, "cancel"))}
+FiredIn(ln) == IF ln.stim.op = "fire" THEN {ln.stim.tm} ELSE {}
+OneAddr(c) == c.A["B"].st = "none"
+
+-----------------------------------------------------------------------------
+(* C13  Settled requests and lost connections stay silent: no stray timers or writes *)
+\* ghost: pend = pending timers (records of ArmsAt), connTm = handle armed by the accepted connect() per address,
+\*        L = per address what remains to be watched after a loss [aw, old]
+C13_0 == [pend |-> {}, connTm |-> [a \in Addrs |-> 0], L |-> [a \in Addrs |-> [aw |-> {}, old |-> {}, on |-> FALSE]]]
+C13_Step(c, c2, g, ln) ==
+  LET s == ln.stim
+      ws == WritesAt(c, c2, ln)
+      arms == ArmsAt(c, c2, ln, ws)
+      gone == CancelledIn(ln) \cup FiredIn(ln)
+      \* cg: the connection of address A during which the timer was armed (used only in one-address traces)
+      pend1 == {t \in g.pend : t.tm \notin gone} \cup {[arms[i] EXCEPT !.cg = c2.A["A"].g] : i \in 1..Len(arms)}
+      pendH == {t.tm : t \in pend1}
+      connTm1 == IF s.op = "connect" /\ c2.A[s.a].st = "connecting" /\ c.A[s.a].st = "idle" /\ arms # <<>>
+                 THEN [g.connTm EXCEPT ![s.a] = arms[1].tm] ELSE g.connTm
+      isNotif(t) == t.fn = "app_onDisconnection"
+      \* what to watch after a loss: the notification of this loss and the CONNACK timeout are awaited, everything else must be gone by then
+      L1 == [a \in Addrs |->
+               IF s.op = "lost" /\ s.a = a
+               THEN LET aw == {t.tm : t \in {x \in pend1 : isNotif(x) \/ x.tm = connTm1[a]}} IN
+                    [aw |-> aw, old |-> {t.tm : t \in {x \in pend1 : x.cg = c.A[a].g}} \ aw, on |-> TRUE]
+               ELSE [aw |-> g.L[a].aw \cap pendH, old |-> g.L[a].old \cap pendH, on |-> g.L[a].on]]
+      reqWrites == SelectSeq(ws, LAMBDA w : w.cls # "")
+      owners == {t.own : t \in {x \in pend1 : x.own[1] # 0}}
+      dupOwner == \E t1, t2 \in pend1 : t1.tm # t2.tm /\ t1.own[1] # 0 /\ t1.own = t2.own
+      anyPending == \E d \in 1..Len(c2.D) : c2.D[d].st = "pending"
+      quietA == OneAddr(c2) /\ c2.A["A"].st = "connected" /\ c2.A["A"].tp = "open" /\ c2.A["A"].ka = 0 /\ ~anyPending
+      stray == {t \in pend1 : ~isNotif(t) /\ ~(t.tm \in {g.connTm[a] : a \in Addrs} /\ t.tm # connTm1["A"])}
+      lateWrites == SelectSeq(ws, LAMBDA w : w.g # c.A[w.a].g \/ c.A[w.a].tp = "lost")
+      g1 == [pend |-> pend1, connTm |-> connTm1, L |-> L1]
+  IN FirstBad(g1,
+       << <<\A i \in 1..Len(reqWrites) : reqWrites[i].d # 0, "C13.write_for_settled_request",
+              <<IF reqWrites # <<>> THEN <<reqWrites[1].a, reqWrites[1].p.t, reqWrites[1].p.id>> ELSE <<>>, s.op>> >>,
+          <<~dupOwner, "C13.two_timers_for_one_packet", <<s.op>> >>,
+          <<~quietA \/ stray = {}, "C13.stray_timer_while_idle", <<{t.fn : t \in stray}>> >>,
+          <<lateWrites = <<>>, "C13.write_after_lost", <<s.op>> >>,
+          <<~OneAddr(c2) \/ \A a \in Addrs : ~(L1[a].on /\ L1[a].aw = {} /\ L1[a].old # {}), "C13.timer_survives_lost_connection",
+              <<{t.fn : t \in {x \in pend1 : x.tm \in L1["A"].old}}>> >> >>,
+       Len(reqWrites) + Len(arms) + (IF quietA THEN 1 ELSE 0) + (IF s.op = "lost" THEN 1 ELSE 0))
+C13_End(c, g) == OKr(g)
+
+-----------------------------------------------------------------------------
+(* C08  Unacknowledged packets are resent on every timer expiry, DUP set, same content *)
+\* ghost: X = retransmittable packets of unfinished requests: [d, cls, a, g, first, initT, txs, tm, ver]
+C08_Get(X, d, cls) == LET ps == SelectSeq([i \in 1..Len(X) |-> i], LAMBDA i : X[i].d = d /\ X[i].cls = cls) IN IF ps = <<>> THEN 0 ELSE ps[1]
+SameButDup(b1, b2) == Len(b1) = Len(b2) /\ \A i \in 2..Len(b1) : b1[i] = b2[i]
+                      /\ (b1[1] \div 16) = (b2[1] \div 16) /\ (b1[1] % 8) = (b2[1] % 8)
+\* one request packet written;  r = [X, err, info, hit]
+C08_Write(r, c, c2, ln, w, arms) ==
+  IF r.err # "" \/ w.d = 0 THEN r ELSE
+  LET i == C08_Get(r.X, w.d, w.cls)
+      myArm == SelectSeq(arms, LAMBDA t : t.own = <<w.d, w.cls>>)
+      tm == IF myArm = <<>> THEN 0 ELSE myArm[Len(myArm)].tm
+      dup == w.p.dup
+      k == c.A[w.a]
+  IN IF i = 0 THEN
+       \* first transmission of this packet
+       [r EXCEPT !.X = Append(@, [d |-> w.d, cls |-> w.cls, a |-> w.a, g |-> w.g, first |-> w.bytes, initT |-> k.initT,
+                                  txs |-> <<ln.t>>, tm |-> tm, n |-> 1]),
+                 !.err = IF w.cls # "pub" /\ dup # 0 THEN "C08.dup_on_first_transmission" ELSE "", !.info = <<w.cls, w.p.id>>]
+     ELSE
+       LET x == r.X[i]
+           byTimer == ln.stim.op = "fire" /\ ln.stim.tm = x.tm /\ w.g = x.g
+           byResume == ln.stim.op = "recv" /\ w.g > x.g /\ c.A[w.a].st = "connecting" /\ c2.A[w.a].st = "connected"
+           dupWant == IF w.cls = "pub" THEN 1 ELSE IF k.ver = 3 THEN 1 ELSE 0
+           gap == ln.t - x.txs[Len(x.txs)]
+           prevGap == IF Len(x.txs) >= 2 THEN x.txs[Len(x.txs)] - x.txs[Len(x.txs) - 1] ELSE 0
+           x2 == [x EXCEPT !.txs = IF w.g = x.g THEN Append(@, ln.t) ELSE <<ln.t>>, !.g = w.g, !.tm = tm, !.n = @ + 1]
+           err == IF ~(byTimer \/ byResume) THEN "C08.repeated_without_expiry"
+                  ELSE IF ~SameButDup(x.first, w.bytes) THEN "C08.content_changed"
+                  ELSE IF dup # dupWant THEN "C08.dup_wrong"
+                  ELSE IF byTimer /\ gap < 1024 * x.initT THEN "C08.repeated_too_early"
+                  ELSE IF byTimer /\ w.cls = "pub" /\ gap < prevGap THEN "C08.gap_shrinks"
+                  ELSE ""
+       IN [r EXCEPT !.X[i] = x2, !.err = err, !.info = <<w.cls, w.p.id, dup, gap, prevGap, ln.stim.op>>, !.hit = @ + 1]
+RECURSIVE C08_Fold(_, _, _, _, _, _, _)
+C08_Fold(r, c, c2, ln, ws, arms, i) == IF i > Len(ws) THEN r ELSE C08_Fold(C08_Write(r, c, c2, ln, ws[i], arms), c, c2, ln, ws, arms, i + 1)
+C08_Step(c, c2, g, ln) ==
+  LET s == ln.stim
+      ws == WritesAt(c, c2, ln)
+      arms == ArmsAt(c, c2, ln, ws)
+      \* the expiry of the timer of an unacknowledged packet on a connection that is up obliges a retransmission
+      due == IF s.op = "fire" THEN SelectSeq(g, LAMBDA x : x.tm = s.tm /\ Pending(c, x.d)) ELSE <<>>
+      obliged == due # <<>> /\ LET x == due[1]  k == c.A[x.a] IN
+                    /\ k.g = x.g /\ k.tp = "open" /\ k.st \in {"connecting", "connected"}
+                    /\ (x.cls = "pub" => TRUE)
+      done == due # <<>> /\ LET x == due[1] IN
+                Count(ws, LAMBDA w : w.d = x.d /\ w.cls = x.cls) = 1 /\ Count(arms, LAMBDA t : t.own = <<x.d, x.cls>>) = 1
+      r == C08_Fold([X |-> g, err |-> "", info |-> <<>>, hit |-> 0], c, c2, ln, ws, arms, 1)
+      \* forget packets whose request is settled (their identifiers may be reused)
+      X2 == SelectSeq(r.X, LAMBDA x : Pending(c2, x.d) /\ ~(x.cls = "pub" /\ \E i \in 1..Len(r.X) : r.X[i].d = x.d /\ r.X[i].cls = "rel"))
+  IN IF r.err # "" THEN Bad2(g, r.err, r.info)
+     ELSE FirstBad(X2,
+            << <<~obliged \/ done, "C08.not_retransmitted_on_expiry", <<IF due # <<>> THEN <<due[1].cls, c.D[due[1].d].mid>> ELSE <<>> >> >>,
+               <<~(due # <<>> /\ Raised(ln)), "C08.exception_in_retry_timer", <<IF Raised(ln) THEN LogExc(Fx(ln, "raise")[1]) ELSE "">> >> >>,
+            r.hit + (IF obliged THEN 1 ELSE 0))
+C08_End(c, g) == OKr(g)
+
 -----------------------------------------------------------------------------
 (* engine *)
-Gh0 == CASE Prop = "C18" -> C18_0 [] Prop = "C14" -> <<>> [] Prop = "C04" -> C04_0 [] Prop = "C05" -> C05_0 [] OTHER -> <<>>
+Gh0 == CASE Prop = "C18" -> C18_0 [] Prop = "C14" -> <<>> [] Prop = "C04" -> C04_0 [] Prop = "C05" -> C05_0 [] Prop = "C10" -> C10_0 [] Prop = "C13" -> C13_0 [] OTHER -> <<>>
 PropStep(c, c2, g, ln) ==
   CASE Prop = "C18" -> C18_Step(c, c2, g, ln) [] Prop = "C14" -> C14_Step(c, c2, g, ln)
     [] Prop = "C04" -> C04_Step(c, c2, g, ln) [] Prop = "C05" -> C05_Step(c, c2, g, ln)
+    [] Prop = "C13" -> C13_Step(c, c2, g, ln) [] Prop = "C08" -> C08_Step(c, c2, g, ln)
+    [] Prop = "C10" -> C10_Step(c, c2, g, ln) [] Prop = "C09" -> C09_Step(c, c2, g, ln) [] Prop = "C17" -> C17_Step(c, c2, g, ln)
     [] OTHER -> OKr(g)
 PropEnd(c, g) ==
   CASE Prop = "C18" -> C18_End(c, g) [] Prop = "C14" -> C14_End(c, g) [] Prop = "C04" -> C04_End(c, g) [] Prop = "C05" -> C05_End(c, g)
